@@ -101,7 +101,7 @@ func H16_Elem() {
 }
 
 // H16_Manager: the real Manager with its handler goroutine and retry ticker (virtual time): register (also twice),
-// retry ticks, unregister, close. The oracle is the adapter's own event log: it is "started" after a successful
+// retry ticks, unregister, a peer loss reported by the started adapter, close. The oracle is the adapter's own event log: it is "started" after a successful
 // Start until the next Close.
 func H16_Manager() {
 	m := NewManager()
@@ -119,7 +119,7 @@ func H16_Manager() {
 	for i := 0; i < steps; i++ {
 		wasStarted := started()
 		starts, closes := a.starts, a.closes
-		ev := verif.Choose(nm("ev", i), 3)
+		ev := verif.Choose(nm("ev", i), 4)
 		a.next = verif.Choose(nm("out", i), 3)
 		switch ev {
 		case 0: // register
@@ -137,6 +137,9 @@ func H16_Manager() {
 			if known && !wasStarted && a.permanent && failedRetry > 0 && a.starts == starts {
 				verif.Assert(false, "a permanent adapter whose start failed is retried at every retry interval")
 			}
+			if !known {
+				verif.Assert(a.starts == starts, "an unregistered adapter is forgotten: the retry ticker does not start it again")
+			}
 		case 2: // unregister
 			m.Unregister(a)
 			if wasStarted {
@@ -145,6 +148,14 @@ func H16_Manager() {
 			verif.Assert(!started(), "an unregistered adapter is stopped")
 			known = false
 			failedRetry = 0
+		case 3: // the started adapter reports the loss of its peer: the manager restarts it
+			if !wasStarted {
+				break
+			}
+			a.ch <- NewConvergencePeerDisappeared(a, bpv7.DtnNone())
+			time.Sleep(time.Millisecond)
+			verif.Assert(a.closes == closes+1, "a reported peer loss stops the adapter exactly once")
+			verif.Assert(a.starts == starts+1, "and starts it again exactly once")
 		}
 		if a.starts > starts && a.next == 1 {
 			failedRetry++
@@ -160,6 +171,9 @@ func H16_Manager() {
 			}
 		}
 		verif.Assert(n <= 1, "a single instance per address")
+		if !known {
+			verif.Assert(n == 0, "an unregistered adapter is not listed")
+		}
 		verif.Assert((n == 1) == started(), "listed among the active senders exactly while the most recent start succeeded and it was not stopped since")
 	}
 	verif.Assert(m.Close() == nil, "manager closes")
